@@ -146,3 +146,50 @@ func verifC16CheckGrid(w *verifC16World, now uint64, earliestBefore uint64, tag 
 	next, nerr := k.GetNextEpoch(ctx, q)
 	verif_assert("next-epoch-strictly-later", nerr == nil && next > q)
 }
+
+// VerifC16History: a longer history.  From a steady state (epochs of 5 blocks, 4 epochs kept, 8 epochs since
+// genesis) three governance steps follow, two epochs apart; each changes the epoch length, the epochs to save, or
+// nothing.  Every epoch start runs its processing.  After each one, every block still in memory resolves to an
+// epoch start, an epoch length and a blocks-to-save window (no fixation that is still needed was dropped), and the
+// earliest epoch only moves forward.
+func VerifC16History() {
+	e := uint64(5)
+	s := uint64(4)
+	start := uint64(40)
+	w := verifC16NewWorld(e, s, start, s)
+	block := start
+	earliest := w.k.GetEarliestEpochStart(w.ctx)
+	steps := verif_param("governance_steps", 3)
+	total := 2*steps + 3
+	for i := 0; i < total; i++ {
+		if i%2 == 0 && i/2 < steps {
+			switch verif_nondet_range("step.change", 0, 2) {
+			case 1: // epoch length 5 -> 4 -> 6 -> 5 ...
+				e = []uint64{4, 6, 5}[(i/2)%3]
+				w.setParams(types.Params{EpochBlocks: e, EpochsToSave: s, LatestParamChange: block + 1})
+			case 2:
+				s = s + 1
+				w.setParams(types.Params{EpochBlocks: e, EpochsToSave: s, LatestParamChange: block + 1})
+			}
+		}
+		// the next epoch start according to the chain itself
+		next, err := w.k.GetNextEpoch(w.at(block), block)
+		verif_assert("next-epoch-resolves", err == nil && next > block && next <= block+6)
+		block = next
+		verif_assert("next-epoch-is-an-epoch-start", w.k.IsEpochStart(w.at(block)))
+		w.epochStart(block)
+		ctx := w.at(block)
+		ne := w.k.GetEarliestEpochStart(ctx)
+		verif_assert("history-earliest-epoch-only-moves-forward", ne >= earliest && ne <= block)
+		earliest = ne
+		// the earliest block in memory and the current one resolve completely
+		for _, q := range []uint64{earliest, block} {
+			_, _, e1 := w.k.GetEpochStartForBlock(ctx, q)
+			_, e2 := w.k.EpochBlocks(ctx, q)
+			_, e3 := w.k.EpochsToSave(ctx, q)
+			_, e4 := w.k.BlocksToSave(ctx, q)
+			verif_assert("block-in-memory-keeps-its-fixated-params", e1 == nil && e2 == nil && e3 == nil && e4 == nil)
+		}
+	}
+	verif_reach("end")
+}
